@@ -171,7 +171,15 @@ AutoBytes(v, ct) ==
   ELSE IF ct \notin EscTypes THEN b                                  \* txt: no escaper
   ELSE IF v.t = "safe" /\ ct \in v.types THEN b                      \* explicitly marked safe for this type
   ELSE Mark(ct, b)
-DirectEscape(x) == x.k = "pipe" /\ x.name \in {"escape", "raw"}     \* an explicit escape/raw is never escaped again
+(* an explicit raw, or an explicit escape for a strategy that exists (written as a literal, or left out = html), decides the
+   escaping of the print itself and is not escaped again for the template's content type; parentheses around it change nothing;
+   an escape whose strategy is unknown decides nothing: the print is escaped for its template like any other *)
+RECURSIVE StripGroup(_)
+StripGroup(x) == IF x.k = "group" THEN StripGroup(x.x) ELSE x
+DirectEscape(x0) ==
+  LET x == StripGroup(x0) IN
+  x.k = "pipe" /\ (x.name = "raw"
+                   \/ (x.name = "escape" /\ (x.args = <<>> \/ (Len(x.args) = 1 /\ x.args[1].k = "str" /\ IsPrintable(x.args[1].s) /\ B2S(x.args[1].s) \in EscTypes))))
 
 (* user callbacks registered by the harness (core environment)             *)
 (*   functions: _p(k) probe, id(x..) -> first argument, nul() -> null      *)
